@@ -86,6 +86,8 @@ pub struct Fx {
     shreds: HashMap<(String, usize, bool, String), Vec<ValidatedShred>>,
     /// wire bytes of a fixture shred -> (block, slice index, header flag, signer, shred index)
     by_bytes: HashMap<Vec<u8>, (String, usize, bool, String, usize)>,
+    /// `ValidatedShred::try_new(.., None, leader_pk)` verdicts of answered shreds, by wire bytes
+    sig_verdicts: Mutex<HashMap<Vec<u8>, bool>>,
 }
 
 impl Fx {
@@ -110,6 +112,7 @@ impl Fx {
             roots: BTreeMap::new(),
             shreds: HashMap::new(),
             by_bytes: HashMap::new(),
+            sig_verdicts: Mutex::new(HashMap::new()),
         };
         let mut shredder = RegularShredder::default();
         for (blk, prefix, slot, n) in [("B", "a", 1u64, ns), ("O", "o", 1, ns), ("Z", "z", 2, 1)] {
@@ -330,7 +333,12 @@ impl Fx {
                     && exact
                     && s < self.ns
                     && self.roots.get(&format!("{}{s}", Self::root_prefix(&blk))).is_some_and(|r| shred.slice_root() == *r)
-                    && ValidatedShred::try_new(shred.clone(), None, &self.leader_pk).is_ok()
+                    && *self
+                        .sig_verdicts
+                        .lock()
+                        .unwrap()
+                        .entry(bytes.clone())
+                        .or_insert_with(|| ValidatedShred::try_new(shred.clone(), None, &self.leader_pk).is_ok())
                     && desc["last"].as_bool() == Some(s == self.ns - 1);
                 json!({"v": "sh", "idx": 0, "root": "-", "pf": Self::no_pf(), "sh": desc, "ok": ok, "embeds": embeds(rt)})
             }
@@ -1013,7 +1021,8 @@ pub fn run(args: &[String], seed: u64) -> anyhow::Result<Value> {
     }
     let path = arg_after(args, "--tlc-out").expect("--tlc-out");
     let g = graph::Graph::load(&path)?;
-    let opts = graph::ReplayOpts { sample: None, seed, max_div: usize::MAX, budget_s: 0 };
+    let sample = arg_after(args, "--sample").and_then(|s| s.parse().ok());
+    let opts = graph::ReplayOpts { sample, seed, max_div: usize::MAX, budget_s: 0 };
     let rep = graph::replay(&g, &mut d, &opts);
     let mut out = rep.to_json("repair");
     let fps = d.all_fps.lock().unwrap();
